@@ -43,6 +43,9 @@ def run(tier, seed, only=None):
             # the same repetition for a project that emits no events (no events.ts, empty events hash)
             for nf in (1, 3):
                 cases.append({"id": "%s-repeat-noev-f%d" % (drv, nf), "h": rep[0]["h"], "ev": False, "viz": (nf == 3), "nfiles": nf, "driver": drv})
+            # ... and for a project in which one source file is reachable through two paths (a symbolic link)
+            for k in range(2 if tier == "quick" else 6):
+                cases.append({"id": "%s-repeat-symlink-%d" % (drv, k), "h": rep[0]["h"], "ev": True, "viz": False, "nfiles": 2, "driver": drv, "symlink": True})
             fh, _ = P.gen_histories("Gen_Pipeline_force_%s" % drv)
             for i, h in enumerate(fh):
                 # tamper with a binding before the last run so that "rewritten" is observable in content
